@@ -424,8 +424,19 @@ void NiSkinPartition::PrepareTrueTriangles() {
 		if (!p.trueTriangles.empty())
 			continue;
 
-		if (p.numStrips)
-			p.ConvertStripsToTriangles();
+		if (p.numStrips) {
+			// Generate from the strips without converting them:
+			// preparing data for a query must not change what is saved
+			p.trueTriangles = GenerateTrianglesFromStrips(p.strips);
+			if (bMappedIndices) {
+				ApplyMapToTriangles(p.trueTriangles, p.vertexMap);
+
+				for (Triangle& t : p.trueTriangles)
+					t.rot();
+			}
+
+			continue;
+		}
 
 		if (bMappedIndices)
 			p.GenerateTrueTrianglesFromMappedTriangles();
